@@ -56,9 +56,10 @@ type Observer struct {
 }
 
 func newObserver(e *Env) *Observer {
-	return &Observer{env: e, peerNames: map[erpc.Peer]string{}}
+	return &Observer{env: e, peerNames: map[erpc.Peer]string{}, Handlers: make([]HandlerEvent, 0, 1024), Status: make([]StatusEvent, 0, 1024), Plugins: make([]PluginEvent, 0, 4096)}
 }
 
+//go:norace
 func (o *Observer) step() int {
 	if o.env.Sched != nil {
 		return o.env.Sched.Stats.Steps
@@ -66,11 +67,14 @@ func (o *Observer) step() int {
 	return 0
 }
 
+//go:norace
 func (o *Observer) status(s erpc.Session, from, to int32) {
 	o.Status = append(o.Status, StatusEvent{Step: o.step(), Sess: s, From: from, To: to})
 }
 
 // PeerName returns the harness name of a peer.
+//
+//go:norace
 func (o *Observer) PeerName(p erpc.Peer) string {
 	if n, ok := o.peerNames[p]; ok {
 		return n
@@ -92,6 +96,8 @@ func SessKey(s interface {
 }
 
 // RecordHandler logs a handler entry.
+//
+//go:norace
 func (o *Observer) RecordHandler(ev HandlerEvent) {
 	ev.Step = o.step()
 	if o.env.Sched != nil {
@@ -138,6 +144,7 @@ func (p *RecHeader) PostReadPushHeader(c erpc.ReadCtx) *erpc.Status { return p.R
 // Name implements erpc.Plugin.
 func (r *Recorder) Name() string { return r.PName }
 
+//go:norace
 func (r *Recorder) rec(stage string, peer erpc.Peer, sess string, seq int32, mtype byte, method string, tag ...string) *erpc.Status {
 	if r.Stages != nil && !r.Stages[stage] {
 		return nil
